@@ -50,6 +50,9 @@ def next_ops(cols):
     if C in cols:
         ops.append(("sort", ((R(C), False), (R(A), True), (R(B), True))))
         ops.append(("proj", (C, A)))
+    else:
+        # a calculation re-using the tag of a column the state's projection hid (the state's sort may still use it)
+        ops.append(("calc", C, ("neg", R(A))))
     return ops
 
 
@@ -111,3 +114,13 @@ def select_matrix(steps=1, engine=0, bases=("leaf", "sel", "chain", "join")):
                         names.append(ops[i][0])
                     if ok:
                         yield (f"{dname}/{base}/[{state}]/" + ">".join(names), (UNIVERSE, leaves, p))
+        if steps == 1:
+            # a SELECT level whose sort is keyed on a column its projection hides, then a calculation re-using that tag
+            for terms in (((R(C), True), (R(A), True), (R(B), True)), ((R(C), False), (R(A), True), (R(B), False))):
+                for sl in (None, (0, 2), (1, 3)):
+                    for expr in (("neg", R(A)), ("add", R(A), R(B))):
+                        p = ("proj", ("sort", ("leaf", 0), terms), (A, B))
+                        if sl is not None:
+                            p = ("slice", p) + sl
+                        p = ("calc", p, C, expr)
+                        yield (f"{dname}/hidden-tag-calc/{'slice' if sl else 'noslice'}", (UNIVERSE, leaves, p))
